@@ -32,6 +32,7 @@ type frame struct {
 	this    *Val
 	params  map[string]Val
 	lets    map[string]Val
+	site    string // call site (in the parent frame) through which this in-place execution was entered
 }
 
 type translateError struct{ msg string }
@@ -44,6 +45,126 @@ const maxPaths = 4000
 const maxInlineDepth = 6
 
 var dbgSeen = map[string]int{}
+
+// movedHints: hints of the contract under verification whose target `call NAME#K` is no longer in the function's own
+// body, when this call (in a contract-less helper executed in place) is the helper's only call of NAME and the helper
+// was entered through the K-th call of that helper in the function: the statement carrying the hint moved into a helper.
+func (fc *fnCtx) movedHints(fr *frame, call *ssa.Call) (before, after []*Clause) {
+	name := calleeName(call.Common())
+	if name == "" {
+		return
+	}
+	n := 0
+	for _, b := range fr.fn.Blocks {
+		for _, ins := range b.Instrs {
+			if ci, ok := ins.(ssa.CallInstruction); ok && calleeName(ci.Common()) == name {
+				n++
+			}
+		}
+	}
+	if n != 1 {
+		return
+	}
+	f := fr
+	for f.parent != nil && f.parent != fc.top {
+		f = f.parent
+	}
+	if f.parent != fc.top {
+		return
+	}
+	rank, k := 0, 0
+	for _, b := range fc.top.fn.Blocks {
+		for _, ins := range b.Instrs {
+			c, ok := ins.(*ssa.Call)
+			if !ok {
+				continue
+			}
+			if calleeName(c.Common()) == name {
+				return // the function still calls NAME itself: the numbering is not the helper's
+			}
+			if callee := c.Common().StaticCallee(); callee != nil && originOf(callee) == originOf(f.fn) {
+				k++
+				if fmt.Sprintf("call%d", fc.top.callOrd[c]) == f.site {
+					rank = k
+				}
+			}
+		}
+	}
+	if rank == 0 {
+		return
+	}
+	if fc.usedOrphanHints == nil {
+		fc.usedOrphanHints = map[string]bool{}
+	}
+	kb, ka := fmt.Sprintf("-%s#%d", name, rank), fmt.Sprintf("%s#%d", name, rank)
+	if hs, ok := fc.top.spec.OrphanHints[kb]; ok {
+		before = hs
+		fc.usedOrphanHints[kb] = true
+	}
+	if hs, ok := fc.top.spec.OrphanHints[ka]; ok {
+		after = hs
+		fc.usedOrphanHints[ka] = true
+	}
+	return
+}
+
+// adoptFor: the orphan loop clause (a clause of the contract under verification that names no loop of the function's
+// own body) that belongs to the clause-less loop `li` of the contract-less helper executed in place in frame fr.
+// Orphans are assigned, in ascending order, to the call sites of that helper in the function itself, in program order:
+// one loop extracted into one helper, or several identical loops replaced by calls of one helper.
+func (fc *fnCtx) adoptFor(fr *frame, li *loopInfo) *LoopSpec {
+	if len(fc.orphanLoops) == 0 || len(fr.loops) != 1 {
+		return nil
+	}
+	// the call site in the top frame through which execution entered the helper
+	f := fr
+	for f.parent != nil && f.parent != fc.top {
+		f = f.parent
+	}
+	if f.parent != fc.top {
+		return nil
+	}
+	key := fmt.Sprintf("%p@%s", li.header, f.site)
+	if ls, ok := fc.adoptedAt[key]; ok {
+		return ls
+	}
+	// rank of this call site among the calls of the same helper in the top function
+	var sites []string
+	for _, b := range fc.top.fn.Blocks {
+		for _, ins := range b.Instrs {
+			c, ok := ins.(*ssa.Call)
+			if !ok {
+				continue
+			}
+			if callee := c.Common().StaticCallee(); callee != nil && originOf(callee) == originOf(f.fn) {
+				sites = append(sites, fmt.Sprintf("call%d", fc.top.callOrd[c]))
+			}
+		}
+	}
+	rank := -1
+	for i, sname := range sites {
+		if sname == f.site {
+			rank = i
+		}
+	}
+	var orphans []int
+	for n := range fc.orphanLoops {
+		orphans = append(orphans, n)
+	}
+	sort.Ints(orphans)
+	if rank < 0 || len(sites) != len(orphans) {
+		return nil
+	}
+	ls := fc.orphanLoops[orphans[rank]]
+	if fc.adoptedAt == nil {
+		fc.adoptedAt = map[string]*LoopSpec{}
+	}
+	fc.adoptedAt[key] = ls
+	fc.adoptedBy[li.header] = ls
+	fc.adoptedN[ls.N] = li.header
+	fc.e.warnings[fmt.Sprintf("%s: loop %d of the contract is attached to the loop of the helper %s called at %s (executed in place)", fc.key, ls.N, fr.key, f.site)] = true
+	return ls
+}
 
 // loopVarsOf lists the named loop-carried variables of a function (by loop ordinal and phi position).
 func loopVarsOf(fr *frame) []LoopVar {
@@ -105,6 +226,20 @@ func (fc *fnCtx) renamed(name string) (string, bool) {
 		return "", false
 	}
 	cur := loopVarsOf(fc.top)
+	// loops of helpers that adopted a clause of this contract count as the loops the clauses were written for
+	for n, header := range fc.adoptedN {
+		k := 0
+		for _, ins := range header.Instrs {
+			phi, ok := ins.(*ssa.Phi)
+			if !ok {
+				break
+			}
+			k++
+			if phi.Comment != "" {
+				cur = append(cur, LoopVar{Loop: n, Index: k, Name: phi.Comment, Type: typeKey(phi.Type())})
+			}
+		}
+	}
 	known := map[string]bool{}
 	for _, r := range reg {
 		known[r.Name] = true
@@ -268,7 +403,11 @@ func (fc *fnCtx) newFrame(fn *ssa.Function, parent *frame) *frame {
 		}
 		for key, hs := range fr.spec.NamedHints {
 			if !resolved[key] {
-				fc.contractError(nil, hs[0], fmt.Sprintf("hint target call %s does not exist in %s", strings.TrimPrefix(key, "-"), fr.key))
+				// perhaps the call moved into a helper: decided when the body has been executed (verifyFunc)
+				if fr.spec.OrphanHints == nil {
+					fr.spec.OrphanHints = map[string][]*Clause{}
+				}
+				fr.spec.OrphanHints[key] = hs
 			}
 		}
 	}
@@ -642,18 +781,10 @@ func (fc *fnCtx) atLoopHeader(st *State, fr *frame, li *loopInfo, pred *ssa.Basi
 	if li.spec == nil && fr.parent != nil {
 		// a loop without clauses in a contract-less callee executed in place: if the contract under verification
 		// has exactly one loop clause that names no loop of its own body, the loop was moved into this helper
-		if ls, ok := fc.adoptedBy[li.header]; ok {
-			li.spec = ls
-		} else if len(fc.orphanLoops) == 1 && len(fc.adoptedBy) == 0 {
-			for _, ls := range fc.orphanLoops {
-				fc.adoptedBy[li.header] = ls
-				li.spec = ls
-				fc.e.warnings[fmt.Sprintf("%s: loop %d of the contract is attached to the loop of the helper %s (executed in place)", fc.key, ls.N, fr.key)] = true
-			}
-		}
-	}
-	if li.spec != nil && fr.parent != nil {
-		if ls, ok := fc.adoptedBy[li.header]; ok && ls == li.spec {
+		if ls := fc.adoptFor(fr, li); ls != nil {
+			// (the helper's loopInfo is shared between its call sites: the clause is chosen per call site)
+			spec := *ls
+			li = &loopInfo{header: li.header, body: li.body, ordinal: li.ordinal, spec: &spec}
 			ofr = fc.top
 			lname = fmt.Sprintf("loop%d", ls.N)
 		}
@@ -1503,6 +1634,21 @@ func (fc *fnCtx) execFrom(st *State, fr *frame, b *ssa.BasicBlock, i int) {
 		case *ssa.Call:
 			// continuation style: the rest of the block runs inside k
 			next := i + 1
+			var movedBefore, movedAfter []*Clause
+			if fr.spec == nil && fr.parent != nil && fc.top != nil && fc.top.spec != nil && len(fc.top.spec.OrphanHints) > 0 {
+				movedBefore, movedAfter = fc.movedHints(fr, ins)
+			}
+			for hi, h := range movedBefore {
+				sc := fc.specCtxFor(st, fc.top)
+				sc.useNames = true
+				fc.bindCallOperands(st, sc, ins)
+				name := fc.oblName(fc.top, fmt.Sprintf("hint@before.call%d.%d", fr.callOrd[ins], hi+1))
+				if g := fc.evalBoolClause(sc, h, name); g != "" {
+					fc.emit(st, name, "hint", h.Text, clauseLoc(h), g, h.Tags)
+					st.pc = append(st.pc, g)
+				}
+			}
+			_ = movedAfter
 			if fr.spec != nil {
 				// hints to be established just before the call
 				for _, h := range fr.spec.Hints[-fr.callOrd[ins]] {
